@@ -328,18 +328,19 @@ fn claims_carrier<V: Full>(prop: &mut Property) {
     use paseto_json::jiff::Timestamp;
     let name = V::NAME;
     prop.subs.push(
-        Sub::new(format!("{name}/registered-claims"), 128 * 2, "{local, public} x all 2^7 presence masks of RegisteredClaims (distinct value per field): the unsealed claims equal the sealed ones field by field", move |idx, describe| {
+        Sub::new(format!("{name}/registered-claims"), 128 * 2, "{local, public} x all 2^7 presence masks of RegisteredClaims (distinct value per field; strings with quotes, backslashes, control characters and non-ASCII text among them): the unsealed claims equal the sealed ones field by field", move |idx, describe| {
             let local = idx % 2 == 0;
             let mask = idx / 2;
             let ts = |k: i64| Timestamp::new(1_700_000_000 + k, (k as i32) * 7).unwrap();
             let c = RegisteredClaims {
-                iss: (mask & 1 != 0).then(|| "issuer".to_string()),
-                sub: (mask & 2 != 0).then(|| "subject".to_string()),
-                aud: (mask & 4 != 0).then(|| "audience".to_string()),
+                // odd masks carry strings that need JSON escapes (quote, backslash, control characters) and non-ASCII text
+                iss: (mask & 1 != 0).then(|| "issuer \"quoted\" back\\slash".to_string()),
+                sub: (mask & 2 != 0).then(|| if mask % 3 == 0 { "sub\nject\u{1}\t".to_string() } else { "subject".to_string() }),
+                aud: (mask & 4 != 0).then(|| if mask % 3 == 1 { "audi\u{e9}nce \u{10FFFF}/".to_string() } else { "audience".to_string() }),
                 exp: (mask & 8 != 0).then(|| ts(3)),
                 nbf: (mask & 16 != 0).then(|| ts(1)),
                 iat: (mask & 32 != 0).then(|| ts(2)),
-                jti: (mask & 64 != 0).then(|| "token-id".to_string()),
+                jti: (mask & 64 != 0).then(|| if mask % 2 == 1 { "token\u{0}id\r".to_string() } else { "token-id".to_string() }),
             };
             let mut o = Outcome::new();
             if describe {
